@@ -29,6 +29,10 @@ var properties = []Property{
 	{ID: "C03", Title: "Untrusted input never crashes the library: a result or an error, always",
 		Rules:     []string{"TAG.access", "TAG.exprtoken", "PANIC.assert", "PANIC.div", "PANIC.shift", "PANIC.recover", "PANIC.result", "PANIC.explicit", "PANIC.ifacecmp", "PANIC.progress", "PANIC.nilres", "PANIC.index", "DIM.runes", "CONV.tag", "CONV.identity"},
 		Technique: "panic-site inventory with dominating-guard / typestate discharge over go/ssa",
+		Explanation: "Inside the region reachable from the untrusted-input entry points (call graph) every instruction class that can panic is inventoried and must be discharged: asserting accessors by the variant-tag typestate (Type() guards, Convert post-condition, constructor tags, token invariant, all-callers for helpers), integer division/shift by dominating range tests, index and slice expressions by a bounds prover (guards with pure-load congruence, len-k, range idiom, verified field invariants, result ranges), nil-able results by nil tests or the parser-cursor typestate (remaining-token lower bound, invalidated by cursor writers), explicit panics by call-site falsification or named structural invariants, interface comparisons by tag restriction, the recover wrapper by named-result binding, (value,error) tuples by nilness, the main loop by freshness of the tested token.",
+		NotDecided: "termination beyond the main loop's per-cycle progress, stack depth on deeply nested input, panics inside dependencies for exotic arguments, caller-supplied nil pointers or foreign interface implementations",
+		LevelText:  "A sound-by-construction inventory for the listed panic classes under the stated assumptions: every site in the region is an obligation; silence means each was discharged by an argument the checker re-derives on every run. It is not a termination proof and does not look inside dependencies.",
+		LevelNote:  "Trusted: go/ssa, CHA (quick) / VTA (thorough) call graph for the region, the guard algebra (dominating branch conditions, pure-accessor congruence, no intervening store check limited to the enumerated idioms), reviewed instances listed with re-verified fingerprints.",
 	},
 	 {ID: "C04"}, {ID: "C05"}, 
 	{ID: "C06", Title: "Variant operators implement the arithmetic of the first operand's type",
@@ -52,6 +56,10 @@ var properties = []Property{
 	{ID: "C08", Title: "Built-in functions compute what their names denote",
 		Rules:     []string{"FUNC.table", "FUNC.chain", "FUNC.arity", "FUNC.fold", "PANIC.recover", "PANIC.result", "TAG.access", "PANIC.index"},
 		Technique: "registration-table resolution, normalised SSA result expressions per registered name, abstract interpretation over the argument count",
+		Explanation: "The 37 registrations are resolved from NewDefaultFunctionCollection (name → calculator function value). For names that denote a host function or constant the calculator's success result must be exactly that host function on the converted first argument; every calculator is abstractly interpreted over n = len(parameters) ∈ {0..8, 9+} (branches on n and on checkParamCount folded, all others explored) to derive the accepted counts and compare them with the statement's, and to show parameter k is read only when n > k; Min/Max/Sum/If/Choose/Contains/Abs have structural checks; the panic-to-error wrapper must bind named results; asserting accessors and result tuples are discharged as in C03.",
+		NotDecided: "numeric values, Date/TimeSpan calendar arithmetic, clock interval bounds beyond 'derives from time.Now()', Rnd range beyond 'is rand.Float32() unmodified'",
+		LevelText:  "Table agreement (name → denoted host function, name → accepted argument counts) plus exhaustive abstract interpretation over the argument count for all registered calculators: a deviation is a function that computes something else than its name, accepts a wrong count, or reads a missing argument.",
+		LevelNote:  "Trusted: go/ssa; math/time/rand semantics. The denotation table is written from the statement and confirmed by reading.",
 	},
 	 {ID: "C09"}, {ID: "C10"},
 	{ID: "C11"}, {ID: "C12"}, {ID: "C13"}, {ID: "C14"}, {ID: "C15"}, {ID: "C16"}, {ID: "C17"}, {ID: "C18"}, {ID: "C19"}, {ID: "C20"},
